@@ -63,23 +63,34 @@ fn parse_content(
                         Span::new(base_position + position, base_position + end_position),
                     )
                 })?;
+                let invalid_entity = || {
+                    ParseError::InvalidEntity(
+                        entity.to_string(),
+                        Span::new(base_position + position, base_position + end_position),
+                    )
+                };
+                // only digits are allowed, in particular no sign (which Rust's
+                // integer parsing would accept)
                 let code = if first_char == 'x' {
-                    u32::from_str_radix(&entity[1..], 16)
+                    let digits = &entity[1..];
+                    if digits.is_empty() || !digits.chars().all(|c| c.is_ascii_hexdigit()) {
+                        return Err(invalid_entity());
+                    }
+                    u32::from_str_radix(digits, 16)
                 } else {
+                    if !entity.chars().all(|c| c.is_ascii_digit()) {
+                        return Err(invalid_entity());
+                    }
                     entity.parse::<u32>()
                 };
-                let code = code.map_err(|_| {
-                    ParseError::InvalidEntity(
-                        entity.to_string(),
-                        Span::new(base_position + position, base_position + end_position),
-                    )
-                })?;
-                let c = std::char::from_u32(code).ok_or_else(|| {
-                    ParseError::InvalidEntity(
-                        entity.to_string(),
-                        Span::new(base_position + position, base_position + end_position),
-                    )
-                })?;
+                let code = code.map_err(|_| invalid_entity())?;
+                let c = std::char::from_u32(code).ok_or_else(invalid_entity)?;
+                // a character reference has to refer to an XML Char
+                // https://www.w3.org/TR/xml/#NT-Char
+                if !matches!(c, '\t' | '\n' | '\r' | '\u{20}'..='\u{D7FF}' | '\u{E000}'..='\u{FFFD}' | '\u{10000}'..='\u{10FFFF}')
+                {
+                    return Err(invalid_entity());
+                }
                 result.push(c);
             } else {
                 match entity.as_str() {
